@@ -210,6 +210,16 @@ package db
 //@ pred noEffect(db *DB) { viewUnchanged(db.kv) && disk == old(disk) && db.kv.gen == old(db.kv.gen) }
 //@ pred counterRoom(db *DB, name string) { has(db.kv.secrets, name) ==> db.kv.secrets[name].LatestVersion < 4294967295 }
 
+// Open is the only constructor of a DB: it establishes the invariant every method requires and
+// preserves (the base case of the induction over histories), and never writes an existing file.
+//@ func Open(path, key, auditLog) (ret, err)
+//@   requires diskHas(disk, path) ==> wfClear(clearOfFile(diskData(disk, path), key))
+//@   requires auditLog != nil ==> auditLog.enc != nil
+//@   ensures [C02,C03,C14 dbopen.establishes-inv] err == nil ==> (ret != nil && fresh(ret) && dbInv(ret) && ret.auditLog == auditLog && ret.kv.path == path && ret.kv.gen == 1)
+//@   ensures [C03,C05 dbopen.readonly] old(diskHas(disk, path)) ==> disk == old(disk)
+//@   ensures [C06 dbopen.needs-audit-log] auditLog == nil ==> (err != nil && ret == nil && disk == old(disk))
+//@   ensures [C04 dbopen.fail-no-db] err != nil ==> ret == nil
+
 //@ func (*DB).checkAndLog(db, caller, action, secret, secretVersion) (err)
 //@   requires db != nil && db.auditLog != nil && db.auditLog.enc != nil
 //@   ensures [C01,C06 cal.ok-iff] err == nil ==> (allows(caller.Permissions, action, secret) && auditLog == snoc(old(auditLog), evC(caller, str(action), secret, secretVersion, true)))
